@@ -5,9 +5,10 @@ evaluation supplied as an opaque table (hook H2)."""
 import json
 import os
 import random
+import re
 import time
 
-from common import (SPEC, NCPU, Outcome, ToolError, log, pmap, read_ndjson, run_harness, seed, shard, validate_trace,
+from common import (SPEC, NCPU, Outcome, ToolError, log, pmap, read_ndjson, run_harness, run_tlc, seed, shard, validate_trace,
                     workdir, write_evidence)
 from boardfam import casegen, corpus, posfilter, board_to_fen
 from findings import matcher_for
@@ -43,8 +44,14 @@ def walk_fens(wd, rng, roots, n, plies):
     return [e["snap"]["fen"] for e in read_ndjson(tr) if e["ev"] == "make"]
 
 
-def run_search_check(prop, tier, cases, wd, t0, rule, level, assumptions):
+def run_search_check(prop, tier, cases, wd, t0, rule, level, assumptions, model=None):
     outcome = Outcome(prop)
+    mfut = None
+    if model:
+        # the design-level model runs beside the trace validation
+        import concurrent.futures as _cf
+        mex = _cf.ThreadPoolExecutor(max_workers=1)
+        mfut = mex.submit(model, wd, tier == "thorough")
     # only well-formed positions may reach the implementation (TLC decides): an ill-formed one (side not to move in check,
     # missing king) can abort the process through an unchecked table index
     fens = list(dict.fromkeys(c["fen"] for c in cases if "fen" in c))
@@ -107,6 +114,12 @@ def run_search_check(prop, tier, cases, wd, t0, rule, level, assumptions):
            "states": states, "transitions": trans, "traces_validated_against_impl": len(cases) - len(bad) - skipped,
            "skipped_reference_tree_too_large": skipped, "exhaustive": False,
            "checker_cmd": "java ... tlc2.TLC -workers 1 -config spec/SearchTrace.cfg spec/SearchTrace.tla per trace shard (PROP, TRACE, OUT in env)"}
+    if mfut:
+        m = mfut.result()
+        cov["design_model"] = {"module": "ABTT.tla (rules in TTRule.tla)", "games_enumerated": m["states"], "runs": m["runs"],
+                               "invariants": ["Exact", "TableSound"]}
+        cov["states"] += m["states"]
+        cov["transitions"] += m["transitions"]
     rc = outcome.finish()
     write_evidence(prop, tier, level, cov, time.time() - t0, len(outcome.violations), assumptions)
     return rc
@@ -118,12 +131,59 @@ ASSUME = ["the static evaluation is opaque: its value for every position of the 
           "fresh engine per search unless the case asks for warm-up searches on the same engine"]
 
 
-def go_case(cases, fen, d, ref, mode="exact", moves=(), sm=(), warm=(), flipof=0, cap=60000, w=10, why="", cycle=(), pre=()):
+def go_case(cases, fen, d, ref, mode="exact", moves=(), sm=(), warm=(), flipof=0, cap=60000, w=10, why="", cycle=(), pre=(), ttcap=0):
     c = {"id": len(cases) + 1, "family": "search", "k": "godepth", "fen": fen, "moves": list(moves), "d": d, "searchmoves": list(sm), "ref": ref, "mode": mode,
-         "cycle": list(cycle), "noeval": mode == "deeprep", "pre": list(pre),
+         "cycle": list(cycle), "noeval": mode in ("deeprep", "free"), "pre": list(pre), "ttcap": ttcap,
          "warm": list(warm), "flipof": flipof, "cap": cap, "w": w, "why": why, "key": [fen, list(moves), d, list(sm), bool(warm)]}
     cases.append(c)
     return c
+
+
+def abtt_model_check(wd, T):
+    """ABTT.tla: TLC enumerates every small game (levelled DAG with transpositions, any move order, terminal nodes, fail-hard and fail-soft
+    horizon values) and checks that the windowed search with the table returns the minimax value and leaves only true bounds in the table;
+    each deviation must make TLC find a game on which that fails.  One TLC process per order of the root's children."""
+    base = open(os.path.join(SPEC, "ABTT.cfg")).read()
+
+    def cfg(w, vmax, it, dev, root):
+        c = base.replace("W1 = 2", "W1 = %d" % w[0]).replace("W2 = 2", "W2 = %d" % w[1]).replace("W3 = 2", "W3 = %d" % w[2])
+        c = c.replace("VMax = 2", "VMax = %d" % vmax).replace("Iter = FALSE", "Iter = %s" % ("TRUE" if it else "FALSE"))
+        return c.replace('Dev = "none"', 'Dev = "%s"' % dev).replace("RootKids = 0", "RootKids = " + root)
+
+    roots2 = ["1", "2", "12", "21"]
+    single = ((2, 3, 2), 1) if T else ((2, 2, 2), 1)
+    runs = []
+    for r in roots2:
+        runs.append(("single%s" % r, cfg(single[0], single[1], False, "none", r), False))
+        runs.append(("iter%s" % r, cfg((2, 2, 1), 1, True, "none", r), False))
+    if T:
+        for r in roots2:
+            runs.append(("wide%s" % r, cfg((2, 2, 2), 2, False, "none", r), False))
+    for dev in ("UpperAgainstRaisedAlpha", "BoundsSwapped", "AlwaysExact"):
+        runs.append((dev, cfg((2, 2, 2), 1, False, dev, "0"), True))
+    runs.append(("IgnoreDraft", cfg((2, 2, 1), 1, True, "IgnoreDraft", "0"), True))
+
+    def one(r):
+        name, c, expect = r
+        tag = re.sub(r"[^A-Za-z0-9]", "_", name)
+        p = os.path.join(wd, "ABTT_%s.cfg" % tag)
+        open(p, "w").write(c)
+        swd = os.path.join(wd, "abtt_" + tag)
+        os.makedirs(swd, exist_ok=True)
+        info = run_tlc(os.path.join(SPEC, "ABTT.tla"), p, swd, workers=1, timeout=20000 if T else 1500)
+        return name, expect, "Error:" in info["out"], info
+
+    out = {"states": 0, "transitions": 0, "runs": []}
+    for name, expect, violated, info in pmap(one, runs, 6 if not T else 12):
+        if expect and not violated:
+            raise ToolError("ABTT with Dev=%s found no violation: the model is too small to tell the deviation from the design" % name)
+        if not expect:
+            if violated or info["rc"] != 0:
+                raise ToolError("ABTT: the design violates exactness in the model:\n" + info["out"][-3000:])
+            out["states"] += info["distinct"]
+            out["transitions"] += info["generated"]
+        out["runs"].append({"config": name, "violation_found": violated, "distinct": info["distinct"]})
+    return out
 
 
 def check_c08(tier, replay=None):
@@ -146,13 +206,17 @@ def check_c08(tier, replay=None):
             f = " ".join(parts)
             for d in ((1, 2, 3) if T else rng.sample([1, 2, 3], 2)):
                 w = {1: 1, 2: 6, 3: 40}[d]
-                a = go_case(cases, f, d, "plain", warm=warm if rng.random() < 0.4 else (), w=w, why="sparse position, plain reference")
+                a = go_case(cases, f, d, "plain", warm=warm if rng.random() < 0.4 else (), w=w, why="sparse position, plain reference", ttcap=2000)
                 go_case(cases, flip_fen(f), d, "plain", flipof=a["id"], w=w, why="colour-flipped twin")
         for f in (DENSE if T else rng.sample(DENSE, 3)):
             a = go_case(cases, f, 1, "ab", warm=warm if rng.random() < 0.4 else (), w=40, why="dense position, alpha-beta reference")
             if T:
                 go_case(cases, flip_fen(f), 1, "ab", flipof=a["id"], w=40, why="colour-flipped twin")
                 go_case(cases, f, 2, "ab", cap=400000, w=300, why="dense position depth 2, alpha-beta reference")
+        # deeper searches, where transpositions do reach the table: every table decision the search logs (hook H6) against TTRule
+        for f in rng.sample(sparse, min(len(sparse), 24 if T else 8)) + (DENSE if T else rng.sample(DENSE, 2)):
+            go_case(cases, f, rng.choice([4, 5]) if f not in DENSE else 4, "ab", mode="free", warm=warm if rng.random() < 0.3 else (), w=30,
+                    why="deeper search: table decisions only", ttcap=2000)
         # forced mates: depth 2N-1 must report mate N
         for f, d in [("7k/5Q2/6K1/8/8/8/8/8 w - - 0 1", 1), ("6k1/5ppp/8/8/8/8/8/R3K3 w - - 0 1", 1), ("kbK5/pp6/1P6/8/8/8/8/R7 w - - 0 1", 3),
                      ("8/8/8/8/8/5k2/6q1/7K w - - 0 1", 2), ("7k/8/5KR1/8/8/8/8/8 w - - 0 1", 3), ("k7/8/1K6/8/8/8/8/6Q1 w - - 0 1", 1),
@@ -164,7 +228,7 @@ def check_c08(tier, replay=None):
             "some searches on an engine that has searched other positions before. TLC computes the minimax value over its own legal move generator with capture resolution and "
             "compares score text, best move (must attain the value), PV legality and, for 'mate N', a 2N-1 ply line ending in checkmate. "
             "distinct_nontrivial = distinct (position, depth, searchmoves, warm) searches with depth >= 2 or a mate score")
-    return run_search_check("C08", tier, cases, wd, t0, rule, "exploration", ASSUME)
+    return run_search_check("C08", tier, cases, wd, t0, rule, "exploration", ASSUME, model=None if replay else abtt_model_check)
 
 
 def shuffle_histories(rng, n):
